@@ -30,8 +30,8 @@ MUT = {
  'c18-noalloc-many-min-inclusive': ('C18', [(N, 'if count < min {', 'if count <= min {')], 'no-alloc many_m_n demands one element more than std'),
  'c18-noalloc-no-trim-end': ('C18', [(P, "val.trim_start().trim_end_matches('@').trim_end().into(),", "val.trim_start().trim_end_matches('@').into(),")], 'no-alloc text keeps trailing blanks'),
  'c18-noalloc-binary-64': ('C18', [('src/messages/binary_broadcast_message.rs', 'const MAX_DATA_SIZE_BYTES: usize = 119;', 'const MAX_DATA_SIZE_BYTES: usize = 64;')], 'no-alloc type 8 rejects binary data above 64 bytes'),
- 'c18-revert-abandon-group': ('C18', [(S, "        if self.data.extend_from_slice(&ais_sentence.data).is_err() {\n            // The group does not fit: abandon it, rather than deliver it with a hole later\n            self.message_id = None;\n            self.fragment_number = 0;\n            self.data.clear();\n            return Err(Error::from(\"Vec is full on extend_from_slice\"));\n        }\n        self.fragment_number = ais_sentence.fragment_number;", "        self.fragment_number = ais_sentence.fragment_number;\n        #[cfg(all(not(feature = \"std\"), not(feature = \"alloc\")))]\n        self.data\n            .extend_from_slice(&ais_sentence.data)\n            .map_err(|_| Error::from(\"Vec is full on extend_from_slice\"))?;"),
-                                           (S, "        #[cfg(any(feature = \"std\", feature = \"alloc\"))]\n        self.data.extend_from_slice(&ais_sentence.data);\n        #[cfg(all(not(feature = \"std\"), not(feature = \"alloc\")))]\n        self.fragment_number", "        self.fragment_number")], 'reverts fix D4'),
+ 'c18-revert-abandon-group': ('C18', [(S, "        if self.data.extend_from_slice(&ais_sentence.data).is_err() {\n            // The group does not fit: abandon it, rather than deliver it with a hole later\n            self.message_id = None;\n            self.fragment_number = 0;\n            self.data.clear();\n            return Err(Error::from(\"Vec is full on extend_from_slice\"));\n        }\n        self.fragment_number = ais_sentence.fragment_number;", "        self.data\n            .extend_from_slice(&ais_sentence.data)\n            .map_err(|_| Error::from(\"Vec is full on extend_from_slice\"))?;"),
+                                           (S, "        #[cfg(any(feature = \"std\", feature = \"alloc\"))]\n        self.data.extend_from_slice(&ais_sentence.data);\n", "        self.fragment_number = ais_sentence.fragment_number;\n        #[cfg(any(feature = \"std\", feature = \"alloc\"))]\n        self.data.extend_from_slice(&ais_sentence.data);\n")], 'reverts fix D4'),
  'c18-alloc-error-text': ('C18', [(S, 'return Err("Fragment numbers out of sequence".into());', '#[cfg(feature = "std")]\n            return Err("Fragment numbers out of sequence".into());\n            #[cfg(not(feature = "std"))]\n            return Err("Fragment number out of sequence".into());')], 'alloc build words one error differently from std'),
  'c20-revert-stderr-utf8': ('C20', [(B, 'lib::std::string::String::from_utf8_lossy(&line),', 'lib::std::str::from_utf8(&line).unwrap(),')], 'reverts fix D6 on the stderr path'),
  'c20-print-incomplete': ('C20', [(B, 'if let AisFragments::Complete(sentence) = sentence {', 'if let AisFragments::Complete(sentence) | AisFragments::Incomplete(sentence) = sentence {')], 'incomplete fragments produce a stdout record'),
